@@ -1,5 +1,6 @@
 """C18 - cursor position query parses the report exactly; movement is conserved (DESIGN.md section 3, C18: U1..U5)."""
 import ast
+import itertools
 import re
 
 from .. import regexast as RX
@@ -10,22 +11,25 @@ from ..srcmodel import is_self_attr, unparse
 from . import tokenizer
 
 EXPLANATION = (
-    "U1 protocol constants: the query written is ESC[6n; the report pattern (found through re.search or a module-level "
-    "re.compile) is compared as a regular language (DFAs from the syntax tree): as a full match of the bytes read so far it "
-    "must accept exactly <anything, newlines included><ESC[ or 0x9b><digits>;<digits>R - so the bytes before the report, all "
-    "of them, land in `extra`.  U2 the returned tuple is (int(row group) - 1, int(column group) - 1) in that order.  U3 the "
-    "only reads are read(1) and the match is attempted after every read, so nothing after the report is consumed.  U4 "
-    "non-empty `extra` goes, encoded, to extra_bytes_callback when it is not None, else ValueError; OSError from the read "
-    "loops back.  U5 conservation by affine effect summaries: in _get_cursor_vertical_diff_once cursor_dy starts as "
-    "row - _last_cursor_row (0 on the first call, decided by an `is None` test), every path through each adjustment loop "
-    "has delta(top_usable_row) + delta(cursor_dy) == 0 with the sign matching the loop guard, the function returns "
-    "cursor_dy and records _last_cursor_row = row on every path; get_cursor_vertical_diff accumulates (+=) every _once() "
-    "value into what it returns, sets the busy flag before and clears it after each query, and a nested call only sets "
-    "the repeat flag and returns 0.  U6 Optional-int attributes (initialised to None, later holding rows/columns/fds "
-    "that may be 0) are tested with `is None`, never by truthiness."
+    "U1 (every input, language level): the report pattern (found through re.search or a module-level re.compile) is compared "
+    "as a regular language (DFAs from the regex syntax tree): as a match of the characters read so far it must accept "
+    "exactly <anything, newlines included><ESC[ or 0x9b><digits>;<digits>R, so everything before the report lands in front "
+    "of it.  U2-U4 (catalogue): get_cursor_position is abstractly interpreted on scripted streams - reports (1,1) .. "
+    "(123456,7) in 7-bit and 8-bit CSI form, 13 kinds of preceding input (keys, escape sequences, look-alike fragments, "
+    "newlines, non-ASCII), trailing input, 0/1/3 reads failing with OSError, with and without extra_bytes_callback, two "
+    "stream encodings; the reference terminal model answers the query only when ESC[6n is written.  Checked: the returned "
+    "pair is the report minus one in (row, column) order; the bytes handed to the callback, concatenated, are exactly the "
+    "preceding input encoded with the stream's encoding (no call when there is none); ValueError without a callback; not "
+    "one character after the report is consumed; OSError never escapes.  U5 (catalogue): CursorAwareWindow is entered on "
+    "every row of a small terminal, renders an array (also one taller than the screen with the cursor cell scrolled off), "
+    "then the cursor is moved to every row twice and get_cursor_vertical_diff interpreted after each move, optionally "
+    "with a nested call injected at a read of the query in progress: delta(top_usable_row) + returned value == observed "
+    "movement for each call, the nested call returns 0 and changes nothing, the in-progress flag is clear afterwards.  U6 "
+    "Optional-int attributes (initialised to None, later holding rows/columns/fds that may be 0) are tested with `is None`, "
+    "never by truthiness."
 )
-NOT_DECIDED = ("the blessed path (_use_blessed), the clamping bounds of the two loops (integer relations), stream encodings, "
-               "what the terminal answers.")
+NOT_DECIDED = ("the blessed path (_use_blessed); reports, inputs and movement histories outside the catalogue (U2-U5 are bounded "
+               "claims; U1 is for every input); what a real terminal answers.")
 
 REF_REPORT = r"[\s\S]*(?:\x1b\[|\x9b)[0-9]+;[0-9]+R"
 REF_REPORT_UPPER = r"[\s\S]*(?:\x1b\[|\x9b)\d+;\d+R"
@@ -75,11 +79,13 @@ def rule_position(src, rep, fold, counts):
     f = src.func("window", "CursorAwareWindow.get_cursor_position")
     uses = regex_uses(src, fold, f)
     counts["report_patterns"] = len(uses)
+    uses = [u for u in uses if isinstance(u["pattern"], str)]
     if len(uses) != 1:
-        raise AnalysisError("get_cursor_position: expected exactly one regex use, found %d" % len(uses))
+        # the report is not recognised by one constant pattern here: the language-level rule does not apply, the
+        # interpreted catalogue below still decides the behaviour on its inputs
+        rep.extracted["report_pattern"] = None
+        return
     u = uses[0]
-    if not isinstance(u["pattern"], str):
-        raise AnalysisError("get_cursor_position: report pattern is not a compile-time constant")
     rx = RX.Regex(u["pattern"], u["flags"])
     where = f.where(u["node"])
     rep.extracted["report_pattern"] = u["pattern"]
@@ -94,250 +100,177 @@ def rule_position(src, rep, fold, counts):
     w = RX.language_subset(rx, rx.tree, ref2, ref2.tree)
     rep.ob("U1-report-pattern-accepts-only-reports", where, f.scope, "L(pattern) within L(<anything>CSI n;m R)", w is None,
            "the pattern also accepts %r, which is not a cursor position report" % w, witness={"input": w})
-    order = rx.named_group_order()
-    ok = "row" in order and "column" in order and order.index("row") < order.index("column") and "extra" in order and order[0] == "extra"
-    rep.ob("U1-group-order", where, f.scope, "named groups %s" % order, ok, "the report is CSI row ; column R; the pattern's groups are %s" % order)
-    ex = rx.group("extra")
-    rep.ob("U1-extra-is-greedy-any", where, f.scope, "(?P<extra>.*)", ex is not None and RX.is_greedy_any_star(ex),
-           "`extra` must be a greedy `.*` at the start of the pattern")
-    rep.ob("U1-search-from-start", where, f.scope, "%s on the accumulated response" % u["method"], u["method"] in ("search", "match", "fullmatch"), "")
-    # the query
-    writes = [n for n in f.own_nodes() if isinstance(n, ast.Call) and unparse(n.func) == "self.write"]
-    q = [tokenizer.fold_local(fold, f, n.args[0]) for n in writes if n.args]
-    rep.ob("U1-query-is-DSR-6", f.where(writes[0]) if writes else f.where(), f.scope, "self.write(%r)" % (q[0] if q else None),
-           q == ["\x1b[6n"], "the cursor position query must be exactly ESC[6n, written once before reading; found %r" % q)
-    # U2: returned tuple
-    rets = [n for n in f.own_nodes() if isinstance(n, ast.Return) and isinstance(n.value, ast.Tuple)]
-    defs = single_defs(f.node)
-    n_ok = 0
-    for r in rets:
-        if len(r.value.elts) != 2:
+
+
+
+class WouldBlock(Exception):
+    pass
+
+
+REPORTS = [(1, 1), (5, 12), (24, 80), (1000, 1), (123456, 7)]
+AHEAD = ["", "a", "ab\x1b[5;", "\x1b[A", "\x1b[", "7;9R", "\x1b[;5R", "\x1b[5;R", "\n\r\n", "\xe9", "\x1b[2;3", "R", "\x1bOP\x1b[1;5"]
+AFTER = ["", "x\x1b[3;4R"]
+
+
+def rule_position_semantic(src, rep, counts):
+    """U2-U4 on a catalogue of scripted input streams, get_cursor_position interpreted."""
+    from ..par import pmap
+    from ..fold import new_interp
+    from ..winmodel import Rig
+    from .. import termmodel
+    it = new_interp(src)
+    f = src.func("window", "CursorAwareWindow.get_cursor_position")
+    jobs = []
+    for (ri, rp), eight, (ai, ah), af, errs, cb, enc in itertools.product(enumerate(REPORTS), (False, True), enumerate(AHEAD), AFTER, (0, 1, 3),
+                                                                         (True, False), ("utf-8", "latin-1")):
+        if rep.tier == "quick" and (ri + ai + errs + (1 if eight else 0) + (1 if cb else 0) + len(af) + len(enc)) % 4:
             continue
-        comp = []
-        for e in r.value.elts:
-            grp = None
-            minus1 = False
-            if isinstance(e, ast.BinOp) and isinstance(e.op, ast.Sub) and isinstance(e.right, ast.Constant) and e.right.value == 1:
-                minus1 = True
-                e = e.left
-            seen = 0
-            while isinstance(e, ast.Name) and e.id in defs and seen < 4:
-                e = defs[e.id]
-                seen += 1
-            if isinstance(e, ast.Call) and unparse(e.func) == "int" and e.args:
-                t = unparse(e.args[0]).replace('"', "'")
-                for g in ("row", "column"):
-                    if "['%s']" % g in t or "group('%s')" % g in t:
-                        grp = g
-            comp.append((grp, minus1))
-        ok = comp == [("row", True), ("column", True)]
-        rep.ob("U2-zero-based-row-column", f.where(r), f.scope, unparse(r), ok,
-               "the result must be (int(row) - 1, int(column) - 1) in that order; found components %s" % comp)
-        n_ok += 1
-    if not n_ok:
-        rep.ob("U2-zero-based-row-column", f.where(), f.scope, "<no tuple return>", False, "get_cursor_position returns no (row, column) tuple")
-    # U3: reads
-    reads = [n for n in f.all_nodes() if isinstance(n, ast.Call) and isinstance(n.func, ast.Attribute) and n.func.attr in ("read", "readline", "readlines", "read1")]
-    for n in reads:
-        ok = n.func.attr == "read" and len(n.args) == 1 and isinstance(n.args[0], ast.Constant) and n.args[0].value == 1
-        rep.ob("U3-one-character-reads", f.where(n), f.scope, unparse(n), ok,
-               "reading more than one character at a time can consume input that follows the report")
-    if not reads:
-        raise AnalysisError("get_cursor_position: no read call found")
-    counts["reads"] = len(reads)
-    # the match is attempted after every read: the regex use and the read (or the helper doing it) are in the same loop body
-    loops = [n for n in f.node.body if isinstance(n, ast.While)]
-    ok = False
-    for lp in loops:
-        has_use = any(x is u["node"] for x in ast.walk(lp))
-        has_read = any(isinstance(x, ast.Call) and (unparse(x.func) in ("retrying_read",) or
-                                                    (isinstance(x.func, ast.Attribute) and x.func.attr == "read")) for st in lp.body for x in ast.walk(st))
-        if has_use and has_read:
-            ok = True
-            # resp += c between
-    rep.ob("U3-match-after-every-read", f.where(), f.scope, "while True: c = read(1); resp += c; m = search(resp)", ok,
-           "the response must be matched after every single character read")
-    # U4: extra hand-off
-    cb_calls = [n for n in f.own_nodes() if isinstance(n, ast.Call) and unparse(n.func) == "self.extra_bytes_callback"]
-    ok = len(cb_calls) == 1
-    why = "extra_bytes_callback is called %d times" % len(cb_calls)
-    if ok:
-        c = cb_calls[0]
-        g = lexical_guard(f.module, c, f.node)
-        arg = unparse(c.args[0]) if c.args else ""
-        enc_arg = unparse(c.args[0].args[0]) if c.args and isinstance(c.args[0], ast.Call) and c.args[0].args else ""
-        ok = G("self.extra_bytes_callback is not None") in g and any(t == "extra" and p for t, p in g) and \
-            arg.startswith("extra.encode(")
-        enc_ok = "in_stream" in enc_arg and enc_arg.rstrip(")").endswith(".encoding")
-        rep.ob("U4-extra-bytes-encoded-with-stream-encoding", f.where(c), f.scope, arg, enc_ok,
-               "the preceding input was decoded by in_stream with ITS encoding; re-encoding it with `%s` gives other bytes than "
-               "arrived whenever the two differ (latin-1 tty under a UTF-8 locale, 8-bit keys)" % enc_arg)
-        why = "guard %s, argument %s" % (g, arg)
-        exv = defs.get("extra")
-        ok = ok and exv is not None and "'extra'" in unparse(exv).replace('"', "'")
-    rep.ob("U4-extra-bytes-handed-to-callback", f.where(cb_calls[0]) if cb_calls else f.where(), f.scope,
-           "if extra: if callback is not None: callback(extra.encode(...))", ok,
-           "exactly the bytes preceding the report must be passed, encoded, to extra_bytes_callback when one is set; " + why)
-    raises = [n for n in f.own_nodes() if isinstance(n, ast.Raise)]
-    ok = False
-    for r in raises:
-        g = lexical_guard(f.module, r, f.node)
-        if G("self.extra_bytes_callback is not None", False) in g and any(t == "extra" and p for t, p in g) and \
-                r.exc is not None and unparse(r.exc.func if isinstance(r.exc, ast.Call) else r.exc) == "ValueError":
-            ok = True
-    rep.ob("U4-no-callback-raises-ValueError", f.where(), f.scope, "else: raise ValueError(...)", ok,
-           "without a callback, bytes preceding the report must raise ValueError instead of being dropped")
-    # OSError from the read loops back
-    rr = None
-    for (m, qn), g2 in src.funcs.items():
-        if m == "window" and g2.outer is f:
-            rr = g2
-    ok = False
-    if rr is not None:
-        for t in [n for n in rr.own_nodes() if isinstance(n, ast.Try)]:
-            in_loop = rr.module.enclosing(t, (ast.While,)) is not None
-            for h in t.handlers:
-                if h.type is not None and "OSError" in unparse(h.type) and in_loop and \
-                        not any(isinstance(x, (ast.Raise, ast.Return)) for x in ast.walk(h)):
-                    ok = True
-    rep.ob("U4-oserror-retries-read", rr.where() if rr else f.where(), (rr or f).scope, "except OSError: continue (inside while True)", ok,
-           "a read that fails with OSError must be retried, not abort the query or drop the response so far")
+        jobs.append((rp, eight, ah, af, errs, cb, enc))
+
+    def one(job):
+        rp, eight, ah, af, errs, cb, enc = job
+        scr = termmodel.Screen(4, 10)
+        try:
+            rig = Rig(it, "CursorAwareWindow", 4, 10, screen=scr, init_kwargs={"extra_bytes_callback": "record"} if cb else {}, encoding=enc)
+        except AnalysisError as e:
+            return ("error", str(e))
+        scr.report, scr.eight_bit = rp, eight
+        rig.ahead, rig.after, rig.read_errors = list(ah), list(af), errs
+        desc = "input %r, report %s%d;%dR, then %r%s%s, stream encoding %s" % (
+            ah, "0x9b " if eight else "ESC[", rp[0], rp[1], af, "; %d read(s) fail with OSError first" % errs if errs else "",
+            "" if cb else "; no extra_bytes_callback", enc)
+        try:
+            r = rig.call("get_cursor_position")
+        except AnalysisError as e:
+            if "would block" in str(e):
+                return ("U1-query-then-read", desc, "the window reads although no report can be pending: it wrote %r before reading (the query is ESC[6n) "
+                        "or reads beyond the report" % ("".join(rig.log),))
+            return ("error", str(e))
+        if rig.over_reads:
+            return ("U3-consumes-nothing-after-the-report", desc, "%d character(s) after the report were consumed" % rig.over_reads)
+        if r == ("raise", "OSError"):
+            return ("U4-read-errors-are-retried", desc, "OSError from the read escaped")
+        if ah and not cb:
+            if r != ("raise", "ValueError"):
+                return ("U4-no-callback-raises-ValueError", desc, "input precedes the report and there is no callback: expected ValueError, got %s" % (r,))
+            return None
+        if r != ("ok", (rp[0] - 1, rp[1] - 1)):
+            return ("U2-returns-reported-position-zero-based", desc, "returned %s, the report says row %d column %d (one-based)" % (r, rp[0], rp[1]))
+        got = rig.extra
+        if any(not isinstance(x, bytes) for x in got):
+            return ("U4-preceding-bytes-to-callback-in-order", desc, "the callback received %r, not bytes" % (got,))
+        if b"".join(got) != ah.encode(enc) or (not ah and got):
+            return ("U4-preceding-bytes-to-callback-in-order", desc, "the callback received %r, the input preceding the report is %r" % (got, ah.encode(enc)))
+        return None
+    results = pmap(one, jobs, min_chunk=16)
+    groups = {"U1-query-then-read": "the query / read protocol on the scripted streams",
+              "U2-returns-reported-position-zero-based": "returned position on the scripted streams",
+              "U3-consumes-nothing-after-the-report": "input left unread on the scripted streams",
+              "U4-read-errors-are-retried": "failing reads on the scripted streams",
+              "U4-no-callback-raises-ValueError": "preceding input without a callback on the scripted streams",
+              "U4-preceding-bytes-to-callback-in-order": "bytes handed to extra_bytes_callback on the scripted streams"}
+    _tally(rep, f, jobs, results, groups)
+    counts["position_streams"] = len(jobs)
 
 
-def _delta(stmts, target_text):
-    """Sum of constant +=/-= applied to target on a straight-line path (list of statements); None if not constant."""
-    d = 0
-    for st in stmts:
-        if isinstance(st, ast.AugAssign) and unparse(st.target) == target_text:
-            if not (isinstance(st.value, ast.Constant) and isinstance(st.value.value, int)):
-                return None
-            if isinstance(st.op, ast.Add):
-                d += st.value.value
-            elif isinstance(st.op, ast.Sub):
-                d -= st.value.value
-            else:
-                return None
-        elif isinstance(st, (ast.Assign, ast.AnnAssign)):
-            tg = st.targets if isinstance(st, ast.Assign) else [st.target]
-            if any(unparse(t) == target_text for t in tg):
-                return None
-    return d
+def _tally(rep, f, jobs, results, groups):
+    bad = {}
+    n = 0
+    for job, res in zip(jobs, results):
+        n += 1
+        rep.case(True, {"case": repr(job)[:200]} if n % 397 == 1 else None)
+        if res is None:
+            continue
+        if res[0] == "error":
+            raise AnalysisError(res[1])
+        bad.setdefault(res[0], []).append(res[1:])
+    for rule, group in groups.items():
+        items = bad.get(rule, [])
+        if items:
+            items.sort(key=lambda x: len(x[0]))
+            d, why = items[0]
+            rep.ob(rule, f.where(), f.scope, group, False, "%s: %s (%d of %d cases fail this rule)" % (d, why, len(items), n),
+                   witness={"case": d, "failing_cases": len(items)})
+        else:
+            rep.ob(rule, f.where(), f.scope, group, True)
 
 
-def rule_conservation(src, rep, counts):
-    f = src.func("window", "CursorAwareWindow._get_cursor_vertical_diff_once")
-    TOPR = "self.top_usable_row"
-    rets = [n for n in f.own_nodes() if isinstance(n, ast.Return)]
-    if not rets or any(not isinstance(r.value, ast.Name) for r in rets):
-        raise AnalysisError("_get_cursor_vertical_diff_once: returns are not plain names")
-    dy = rets[0].value.id
-    rep.ob("U5-returns-remaining-movement", f.where(rets[0]), f.scope, "return %s" % dy, all(r.value.id == dy for r in rets),
-           "every path must return the same remaining-movement variable")
-    defs = local_defs(f.node).get(dy, [])
-    plain = [d for d in defs if d is not None]
-    # position query
-    pos = [n for n in f.own_nodes() if isinstance(n, ast.Assign) and isinstance(n.value, ast.Call) and
-           unparse(n.value.func) == "self.get_cursor_position" and isinstance(n.targets[0], ast.Tuple)]
-    if len(pos) != 1:
-        raise AnalysisError("_get_cursor_vertical_diff_once: expected one `row, col = self.get_cursor_position()`")
-    rowv = unparse(pos[0].targets[0].elts[0])
-    inits = []
-    for n in f.own_nodes():
-        if isinstance(n, ast.Assign) and any(isinstance(t, ast.Name) and t.id == dy for t in n.targets):
-            inits.append(n)
-    zero = [n for n in inits if isinstance(n.value, ast.Constant) and n.value.value == 0]
-    diff = [n for n in inits if unparse(n.value) == "%s - self._last_cursor_row" % rowv]
-    ok = len(inits) == 2 and len(zero) == 1 and len(diff) == 1
-    if ok:
-        gz = lexical_guard(f.module, zero[0], f.node)
-        gd = lexical_guard(f.module, diff[0], f.node)
-        ok = gz == [G("self._last_cursor_row is None")] and gd == [G("self._last_cursor_row is None", False)]
-        if not ok:
-            why = "the first-call test is %s / %s, not `self._last_cursor_row is None`" % (gz, gd)
-    else:
-        why = "initialisations found: %s" % [unparse(n) for n in inits]
-    rep.ob("U5-movement-is-row-minus-last", f.where(inits[0]) if inits else f.where(), f.scope,
-           "%s = 0 if _last_cursor_row is None else %s - _last_cursor_row" % (dy, rowv), ok,
-           "the observed movement must be row - _last_cursor_row, and 0 exactly when no row was recorded yet (a recorded row 0 "
-           "is a row); " + (why if not ok else ""))
-    loops = [n for n in f.own_nodes() if isinstance(n, ast.While)]
-    counts["adjustment_loops"] = len(loops)
-    for lp in loops:
-        paths = enumerate_paths(lp.body)
-        for p in paths:
-            stmts = p.stmts()
-            dt = _delta(stmts, TOPR)
-            dd = _delta(stmts, dy)
-            ok = dt is not None and dd is not None and dt + dd == 0 and (dt != 0 or dd != 0)
-            rep.ob("U5-loop-conserves-movement", f.where(lp), f.scope, "while %s: [%s]" % (unparse(lp.test), "; ".join(unparse(s) for s in stmts)), ok,
-                   "every step must move one row from the remaining movement into top_usable_row (delta top_usable_row %s + "
-                   "delta %s %s must be 0): otherwise rows are counted twice or lost" % (dt, dy, dd))
-            # sign agrees with the guard
-            g = unparse(lp.test)
-            if ok:
-                cjg = conjuncts(lp.test)
-                pos_guard = G("%s > 0" % dy) in cjg
-                neg_guard = G("%s < 0" % dy) in cjg
-                sign_ok = (pos_guard and dd < 0) or (neg_guard and dd > 0)
-                rep.ob("U5-loop-direction-matches-guard", f.where(lp), f.scope, "while %s: delta %s = %+d" % (g, dy, dd), sign_ok,
-                       "the loop runs while %s but changes %s by %+d per step" % (g, dy, dd))
-    # any other store to top_usable_row / dy outside the loops
-    for n in f.own_nodes():
-        if isinstance(n, (ast.AugAssign, ast.Assign)) and any(unparse(t) == TOPR for t in ([n.target] if isinstance(n, ast.AugAssign) else n.targets)):
-            inloop = f.module.enclosing(n, (ast.While,)) is not None
-            rep.ob("U5-top-usable-row-only-adjusted-in-loops", f.where(n), f.scope, unparse(n), inloop and isinstance(n, ast.AugAssign),
-                   "top_usable_row is changed outside the conserving loops")
-    # _last_cursor_row = row on every path
-    cfg = CFG(f.node)
-    st = [n for n in cfg.nodes if n.kind == "stmt" and isinstance(n.ast, ast.Assign) and
-          unparse(n.ast.targets[0]) == "self._last_cursor_row"]
-    ok = len(st) == 1 and unparse(st[0].ast.value) == rowv
-    if ok:
-        pd = cfg.postdominators()
-        ok = st[0] in pd.get(cfg.entry, set())
-    rep.ob("U5-records-observed-row", f.where(st[0].ast) if st else f.where(), f.scope, "self._last_cursor_row = %s" % rowv, ok,
-           "the observed row must be recorded on every path, otherwise the same movement is accounted for again")
-    # outer function
-    g = src.func("window", "CursorAwareWindow.get_cursor_vertical_diff")
-    rets = [n for n in g.own_nodes() if isinstance(n, ast.Return)]
-    acc = [r.value.id for r in rets if isinstance(r.value, ast.Name)]
-    consts = [r for r in rets if isinstance(r.value, ast.Constant)]
-    accv = acc[0] if acc else None
-    calls = [n for n in g.own_nodes() if isinstance(n, ast.Call) and unparse(n.func) == "self._get_cursor_vertical_diff_once"]
-    ok = False
-    why = "no call of _get_cursor_vertical_diff_once"
-    for c in calls:
-        p = g.module.parent.get(c)
-        ok = isinstance(p, ast.AugAssign) and isinstance(p.op, ast.Add) and unparse(p.target) == accv and p.value is c
-        why = "`%s`" % unparse(p) if p is not None else why
-        if not ok and isinstance(p, ast.Assign) and isinstance(p.value, ast.BinOp):
-            ok = isinstance(p.value.op, ast.Add) and unparse(p.targets[0]) == accv and accv in (unparse(p.value.left), unparse(p.value.right))
-    init0 = [n for n in g.own_nodes() if isinstance(n, ast.Assign) and unparse(n.targets[0]) == accv and
-             isinstance(n.value, ast.Constant) and n.value.value == 0 and g.module.enclosing(n, (ast.While, ast.For)) is None]
-    rep.ob("U5-every-query-accumulated", g.where(calls[0]) if calls else g.where(), g.scope, "%s += self._get_cursor_vertical_diff_once()" % accv,
-           ok and len(init0) == 1,
-           "each _once() call already commits its share to top_usable_row and _last_cursor_row; its return value must be ADDED "
-           "to the result (initialised to 0 before the loop), otherwise the remainder of an earlier query is thrown away; found " + why)
-    # busy-flag protocol
-    body_loops = [n for n in g.node.body if isinstance(n, ast.While)]
-    ok = False
-    if body_loops and calls:
-        lp = body_loops[0]
-        idx = {unparse(s).split("\n")[0]: i for i, s in enumerate(lp.body)}
-        ci = [i for i, s in enumerate(lp.body) if any(x is calls[0] for x in ast.walk(s))]
-        ok = bool(ci) and idx.get("self.in_get_cursor_diff = True", 99) < ci[0] and idx.get("self.another_sigwinch = False", 99) < ci[0] \
-            and idx.get("self.in_get_cursor_diff = False", -1) > ci[0]
-        rt = [s for s in lp.body[ci[0]:] if isinstance(s, ast.If) and unparse(s.test) == "not self.another_sigwinch" and
-              any(isinstance(x, ast.Return) and unparse(x.value) == accv for x in s.body)] if ci else []
-        ok = ok and len(rt) == 1
-    rep.ob("U5-busy-flag-protocol", g.where(), g.scope, "in_get=True; another=False; dy += once(); in_get=False; if not another: return dy", ok,
-           "the busy flag must be set (and the repeat flag cleared) before each query and cleared after it; the loop ends only "
-           "when no nested call arrived during the query")
-    first = g.node.body[0] if not (isinstance(g.node.body[0], ast.Expr) and isinstance(g.node.body[0].value, ast.Constant)) else g.node.body[1]
-    ok = isinstance(first, ast.If) and unparse(first.test) == "self.in_get_cursor_diff" and \
-        [unparse(s) for s in first.body] == ["self.another_sigwinch = True", "return 0"]
-    rep.ob("U5-nested-call-defers", g.where(first), g.scope, "if self.in_get_cursor_diff: self.another_sigwinch = True; return 0", ok,
-           "a nested call must only request a repeat and return 0 (the outer call accounts for the movement)")
+def rule_conservation_semantic(src, rep, counts):
+    """U5: delta(top_usable_row) + returned value == observed movement, per query, over histories of renders and movements."""
+    from ..par import pmap
+    from ..fold import new_interp
+    from ..winmodel import Rig
+    from .. import termmodel
+    from .c02 import Pool
+    it = new_interp(src)
+    pool = Pool(it)
+    f = src.func("window", "CursorAwareWindow.get_cursor_vertical_diff")
+    jobs = []
+    for h in ((4, 6) if rep.tier == "thorough" else (4,)):
+        for k in range(h):
+            for n, cr in ((1, 0), (2, 1), (h + 2, 0), (h + 2, h + 1), (0, 0)):
+                rows = list(range(h))
+                for t1 in rows:
+                    for t2 in (rows if rep.tier == "thorough" else [rows[(t1 + k + n) % h], rows[(t1 * 2 + 1) % h]]):
+                        for nested in ((None, 1, 4) if rep.tier == "thorough" else (None, 1 + (t1 + t2) % 4)):
+                            jobs.append((h, k, n, cr, (t1, t2), nested))
+
+    def one(job):
+        h, k, n, cr, targets, nested = job
+        w = 5
+        scr = termmodel.Screen(h, w)
+        for i in range(k):
+            scr.feed("o%d\r\n" % i)
+        try:
+            rig = Rig(it, "CursorAwareWindow", h, w, screen=scr)
+            r = rig.call("__enter__")
+            if r[0] != "ok":
+                return ("error", "__enter__ raised %s" % (r[1],))
+            array = [pool.fs("r%d" % i) for i in range(n)]
+            r = rig.call("render_to_terminal", array, (cr, 0))
+            if r[0] != "ok":
+                return ("error", "render raised %s" % (r[1],))
+            desc = ["%d-row terminal, window entered on row %d, render %d row(s) cursor_pos=(%d, 0) leaves the cursor on row %d"
+                    % (h, k, n, cr, scr.r)]
+            win = rig.win
+            for qi, t in enumerate(targets):
+                m = t - scr.r
+                scr.r = t
+                tur0 = win.fields.get("top_usable_row")
+                inner = []
+                if nested is not None and qi == 0:
+                    rig.reads = 0
+
+                    def hook(rg, inner=inner):
+                        if rg.reads == nested and not inner:
+                            t0 = rg.win.fields.get("top_usable_row")
+                            inner.append((rg.it.callm(rg.win, "get_cursor_vertical_diff"), rg.win.fields.get("top_usable_row") - t0))
+                    rig.on_read = hook
+                else:
+                    rig.on_read = None
+                r = rig.call("get_cursor_vertical_diff")
+                rig.on_read = None
+                desc.append("the cursor moves %+d row(s) to row %d, get_cursor_vertical_diff()%s" % (
+                    m, t, " with a nested call arriving at read %d of the query" % nested if inner else ""))
+                d = "; ".join(desc)
+                if r[0] != "ok" or not isinstance(r[1], int):
+                    return ("U5-movement-accounted-exactly-once", d, "the call gave %s" % (r,))
+                if inner and inner[0] != (("ok", 0), 0):
+                    return ("U5-nested-call-defers", d, "the nested call gave %s and changed top_usable_row by %s; it must return 0 and leave the "
+                            "accounting to the call in progress" % inner[0])
+                tur1 = win.fields.get("top_usable_row")
+                if (tur1 - tur0) + r[1] != m:
+                    return ("U5-movement-accounted-exactly-once", d, "top_usable_row went %d -> %d and %d was returned: %+d accounted, the cursor moved %+d"
+                            % (tur0, tur1, r[1], (tur1 - tur0) + r[1], m))
+                if win.fields.get("in_get_cursor_diff") not in (False, None):
+                    return ("U5-nested-call-defers", d, "the in-progress flag is still set after the call returned: every later call returns 0")
+            return None
+        except AnalysisError as e:
+            return ("error", str(e))
+    results = pmap(one, jobs, min_chunk=16)
+    _tally(rep, f, jobs, results, {"U5-movement-accounted-exactly-once": "accounting of each query in the render / movement histories",
+                                   "U5-nested-call-defers": "nested calls in the render / movement histories"})
+    counts["movement_histories"] = len(jobs)
 
 
 def rule_optional_int(src, rep, counts):
@@ -402,9 +335,10 @@ def check(src, rep):
     fold = Folder(src)
     counts = {}
     rep.guard(rule_position, src, rep, fold, counts)
-    rep.guard(rule_conservation, src, rep, counts)
+    rep.guard(rule_position_semantic, src, rep, counts)
+    rep.guard(rule_conservation_semantic, src, rep, counts)
     rep.guard(rule_optional_int, src, rep, counts)
     rep.extracted["counts"] = counts
-    rep.floor("report patterns", counts.get("report_patterns", 0), 1)
-    rep.floor("adjustment loops", counts.get("adjustment_loops", 0), 2)
+    rep.floor("scripted report streams", counts.get("position_streams", 0), 300)
+    rep.floor("movement histories", counts.get("movement_histories", 0), 100)
     rep.floor("optional-int attributes", counts.get("optional_int_attrs", 0), 4)
